@@ -237,6 +237,11 @@ func ChangedWhere() string { return "" }
 // WatchGlobals starts logging writes to package-level variables of the module; GlobalWrites counts them.
 func WatchGlobals()     {}
 
+// CallUnmarshalers calls, under the executor, the UnmarshalYAML method of every
+// module type reachable from the static type of target (on a zero value, with a
+// zero node) and returns how many there are. Natively 0: the real decoder does it.
+func CallUnmarshalers(target any) int { return 0 }
+
 // Touch tells the executor that a model method writes the object ptr points
 // to (a stateful writer, hasher, compressor): sharing such an object between
 // two packagings is then seen as a write to shared memory. No-op natively,
